@@ -1,8 +1,44 @@
-(* C16 -- JSON Schema normalisation. (theorems are added as they are closed; model in Normalize.v) *)
-From Fences Require Import Normalize.
+(* C16 -- JSON Schema normalisation: the result is in normal form. *)
+From Fences Require Import Normalize NormShape NormRef NormDnf NormNF.
+From Coq Require Import String.
+Local Open Scope list_scope.
+Local Open Scope string_scope.
+
+(* Whenever normalize() returns -- for every input, both merge options, with and without duplicate detection, any
+   recursion budget -- the result is one of the two constant forms of the boolean schemas or a document
+     { "anyOf": [alternative ...], "$defs": { "0": nf, "1": nf, ... } [, "$schema": ...] }
+   in which every alternative is either a single reference {"$ref": "#/$defs/<i>"} with i < number of entries of
+   $defs, or a keyword set that contains no combinator (anyOf, allOf, oneOf, not, if, then, else, const) and no
+   "$ref", whose sub-schemas under additionalProperties / items / additionalItems / contains, under every name of
+   properties and at every position of prefixItems are again of that form, nested to any depth; every entry of
+   $defs is of that form as well.  ([nf k] is "normal form with references below k".) *)
+Theorem C16_normal_form : forall SV cfg fuel schema j,
+  normalize SV cfg fuel schema = Ok j -> j = NORM_TRUE \/ j = NORM_FALSE \/ nf_doc j.
+Proof. exact normalize_nf. Qed.
+Print Assumptions C16_normal_form.
+
+(* one level: _to_dnf of a schema whose references were inlined yields combinator-free, reference-free alternatives *)
+Theorem C16_to_dnf : forall SV cfg fuel s j, RF s -> to_dnf SV cfg fuel s = Ok j -> dnf j.
+Proof. exact to_dnf_dnf. Qed.
+Print Assumptions C16_to_dnf.
+
+(* _inline_refs leaves no "$ref" at any place _to_dnf descends into *)
+Theorem C16_inline_refs : forall f root s s' c, inline_refs f root s = Ok (s', c) -> RF s'.
+Proof. exact inline_refs_RF. Qed.
+Print Assumptions C16_inline_refs.
 
 (* boolean schemas have the two constant normal forms *)
 Theorem C16_bool : forall SV cfg fuel b,
   normalize SV cfg fuel (JBool b) = Ok (if b then NORM_TRUE else NORM_FALSE).
 Proof. intros SV cfg fuel []; reflexivity. Qed.
 Print Assumptions C16_bool.
+
+(* non-vacuity: a recursive list schema is normalised into a document with one definition *)
+Example C16_nonvacuous :
+  exists j, normalize (mkSV true) (mkNConfig true default_discard false) 60
+              (JObj [(kw "type", jstr "object");
+                     (kw "properties", JObj [(kw "next", JObj [(kw "$ref", JStr (kw "#"))])])]) = Ok j /\ nf_doc j.
+Proof.
+  destruct (normalize (mkSV true) (mkNConfig true default_discard false) 60 _) as [j| | |] eqn:E; try (vm_compute in E; discriminate).
+  exists j. split; auto. destruct (normalize_nf _ _ _ _ _ E) as [X|[X|X]]; auto; subst j; vm_compute in E; discriminate.
+Qed.
